@@ -55,12 +55,28 @@ def check(an: Analysis) -> None:
             for n in g.nodes:
                 if n.raises and (any(n.stmt is s or _within(n.stmt, s) for s in tr.finalbody + tr.orelse)):
                     ob.fail(rec, n.ast, "a raising call in the else/finally part of record escapes the handler")
+        from ..kinds import classify_handler_for
+
         for h in tr.handlers:
             ob.inst(rec, h)
+            # the nodes of the handler an *Exception* can reach (a wider handler may pass everything else on untouched)
+            hn = next((n for n in g.nodes if n.kind == "handler" and n.ast is h), None)
+            on_exception = {n.id for n in g.nodes}
+            if hn is not None and h.name:
+                from ..kinds import Abs as _AbsX
+                from ..kinds import Scenario as _ScnX
+
+                def env_x(e: ast.AST, h=h):
+                    if isinstance(e, ast.Name) and e.id == h.name:
+                        return _AbsX("TypeError", "Exception", "BaseException", "object")
+                    return NOVALUE
+
+                scx = _ScnX(g, Deps(prog, rec), env_x)
+                on_exception = g.reachable([hn], skip_edge=scx.skip)
             for n in g.nodes:
-                if n.meta.get("handler") is h and n.raises:
+                if n.meta.get("handler") is h and n.id in on_exception and n.raises and n.kind != "raise":
                     ob.fail(rec, n.ast or n.stmt, f"the error handler of record can itself raise ({stmt_text(n.ast)})")
-                if n.meta.get("handler") is h and n.kind == "raise":
+                if n.meta.get("handler") is h and n.id in on_exception and n.kind == "raise":
                     ob.fail(rec, n.ast, "record re-raises a recording failure into user code")
     for name in ("log_error", "log_warning", "log_info", "log_debug"):
         lf = prog.fn(f"{MC}.{name}")
